@@ -25,7 +25,7 @@ pub fn def() -> MonitorDef {
 
 fn plan(tier: Tier, _seed: u64) -> Plan {
 	Plan {
-		cases: tier.pick(10, 24),
+		cases: tier.pick(14, 32),
 		shards: 4,
 		case_timeout_s: 1800,
 		level: "exploration",
@@ -115,6 +115,10 @@ fn build_layout(dir: &Path, tar: bool, rng: &mut Rng) -> Result<(std::path::Path
 		canary(&outer.join("releases").join("index.html"), 0, rng)?;
 		let _ = std::os::unix::fs::symlink("../releases/v2", root.join("current"));
 	}
+	// a token that only exists behind the end-of-archive marker of the tar root
+	let stale_token = format!("CANARY-{:016x}{:016x}", rng.next_u64(), rng.next_u64());
+	canaries.push(stale_token.clone());
+	let canaries_tail = stale_token.into_bytes();
 	let layout = Layout { inside, canaries, abs_canary: dir.join("abs_canary.txt").display().to_string(), abs_canary_gz_only: dir.join("abs_canary2.txt").display().to_string() };
 	if tar {
 		// an archive with the same inside files (hand-written ustar)
@@ -126,6 +130,13 @@ fn build_layout(dir: &Path, tar: bool, rng: &mut Rng) -> Result<(std::path::Path
 		}
 		out.extend(std::iter::repeat(0u8).take(1024));
 		itar::members(&out)?;
+		// behind the end-of-archive marker: the remains of an older, longer archive (a member with a canary). They are
+		// bytes of the file, but not entries of the archive.
+		let stale = canaries_tail.clone();
+		out.extend_from_slice(&tar_header("stale-secret.txt", stale.len()));
+		out.extend_from_slice(&stale);
+		out.extend(std::iter::repeat(0u8).take((512 - stale.len() % 512) % 512));
+		out.extend(std::iter::repeat(0u8).take(1024));
 		let p = outer.join("root.tar");
 		std::fs::write(&p, out).map_err(|e| e.to_string())?;
 		let _ = std::fs::remove_dir_all(&root);
@@ -158,7 +169,7 @@ fn tar_header(name: &str, size: usize) -> [u8; 512] {
 }
 
 fn alphabet(l: &Layout) -> Vec<String> {
-	let mut a: Vec<String> = ["a.txt", "sub", "b.txt", "index.html", ".", "..", "", "%2e%2e", "%2E%2e", "..%2f", "%2f", "..;", "secret.txt", "secret2.txt", "secret3.txt", "sibling", "s.txt", "root", "outer", "c.css", "d.js", "..%5c", "%2e%2e%2f", "....", ".%2e", "current", "app.js", "releases", "v2", "..%2fsecret.txt", "..%2F..%2fsecret.txt", "%2e%2e%2fsecret.txt", "..%2findex.html", "sub%2f..%2f..%2fsecret.txt", "..%5csecret.txt", "a.txt%00", "%2e%2e%2fsibling%2fs.txt"]
+	let mut a: Vec<String> = ["a.txt", "sub", "b.txt", "index.html", ".", "..", "", "%2e%2e", "%2E%2e", "..%2f", "%2f", "..;", "secret.txt", "secret2.txt", "secret3.txt", "sibling", "s.txt", "root", "outer", "c.css", "d.js", "..%5c", "%2e%2e%2f", "....", ".%2e", "current", "app.js", "releases", "v2", "..%2fsecret.txt", "..%2F..%2fsecret.txt", "%2e%2e%2fsecret.txt", "..%2findex.html", "sub%2f..%2f..%2fsecret.txt", "..%5csecret.txt", "a.txt%00", "%2e%2e%2fsibling%2fs.txt", "stale-secret.txt"]
 		.iter()
 		.map(|s| s.to_string())
 		.collect();
@@ -214,7 +225,7 @@ fn run_case(cx: &CaseCtx, rep: &mut Report) {
 	let prefix = if prefixed { "/assets" } else { "" };
 	// how the root is spelled on the command line: canonical absolute path; relative to the working directory with
 	// a parent segment in it; or through a symlink that lies deeper than its target
-	let spelling = if tar { 0 } else { (cx.case / 4) % 3 };
+	let spelling = if tar { 0 } else { (cx.case / 4) % 4 };
 	let root_arg = match spelling {
 		1 => "outer/sibling/../root".to_string(),
 		2 => {
@@ -224,13 +235,16 @@ fn run_case(cx: &CaseCtx, rep: &mut Report) {
 			let _ = std::os::unix::fs::symlink(&root, deep.join("link"));
 			deep.join("link").display().to_string()
 		}
+		3 => ".".to_string(),
 		_ => root.display().to_string(),
 	};
 	rep.count(&format!("servers_root_spelling_{spelling}"), 1);
 	let static_arg = if prefixed { format!("[/assets]{root_arg}") } else { root_arg };
 	let args = vec![tiles.display().to_string(), "-s".to_string(), static_arg];
 	cx.progress(&format!("tar={tar} prefix={prefixed}"));
-	let mut server = match Server::start(&args, &dir) {
+	// spelling 3: the server's working directory is the static root itself
+	let started = if spelling == 3 { Server::start_in(&args, &root, &dir) } else { Server::start(&args, &dir) };
+	let mut server = match started {
 		Ok(s) => s,
 		Err(e) => {
 			rep.inconclusive(&format!("server start failed: {e}"));
@@ -276,7 +290,7 @@ fn run_case(cx: &CaseCtx, rep: &mut Report) {
 	}
 	// classic escapes ending in a canary name
 	for up in 1..=6 {
-		for name in ["secret.txt", "secret2.txt", "secret3.txt", "sibling/s.txt", "index.html", "outer/secret.txt", "releases/secret.txt", "root-private/secret.txt", "root.bak"] {
+		for name in ["secret.txt", "secret2.txt", "secret3.txt", "sibling/s.txt", "index.html", "outer/secret.txt", "releases/secret.txt", "root-private/secret.txt", "root.bak", "stale-secret.txt"] {
 			let mut s: Vec<String> = vec!["..".to_string(); up];
 			s.extend(name.split('/').map(String::from));
 			seqs.push(s.clone());
